@@ -455,6 +455,12 @@ pub enum Device {
 pub enum ExportOp {
     WriteGfa,
     JsonRest(bool),
+    /// to_json_rest with `rest = Some({})`
+    JsonEmptyRest,
+    /// to_gfa_with_tags to X.gfa whose tag callback, at node `at mod len`, runs a complete
+    /// to_gfa of the same graph to the sibling path X.plain (two exports interleaved through the
+    /// only seam the exporter has: its callback)
+    NestedTags(usize),
     ToGfaFile(Device),
     ToGfaTagsFile(Device),
 }
@@ -748,6 +754,9 @@ fn run_export<K: Kmer + Send + Sync>(c: &ExportCase, rec: &mut Rec) -> Result<()
     if g.len() == 1 {
         rec.count("reach_single_node_graph");
     }
+    if (0..g.len()).any(|i| g.get_node(i).len() > 65_536) {
+        rec.count("reach_node_longer_than_65536");
+    }
     let total_r: usize = (0..g.len()).map(|i| g.get_node(i).r_edges().len()).sum();
     if g.len() > 0 && total_r == 0 {
         rec.count("reach_link_free_graph");
@@ -791,9 +800,16 @@ fn run_export<K: Kmer + Send + Sync>(c: &ExportCase, rec: &mut Rec) -> Result<()
                 }
             }
         }
-        ExportOp::JsonRest(with_rest) => {
+        ExportOp::JsonRest(_) | ExportOp::JsonEmptyRest => {
             rec.choice("plan_hard", c.plan.hard.is_some() as u64, c.plan.is_clean());
-            let rest = if *with_rest { Some(json!({"alpha": [1, 2, 3], "beta": {"x": "y"}})) } else { None };
+            let rest = match &c.op {
+                ExportOp::JsonRest(true) => Some(json!({"alpha": [1, 2, 3], "beta": {"x": "y"}})),
+                ExportOp::JsonEmptyRest => {
+                    rec.count("reach_json_empty_rest_object");
+                    Some(json!({}))
+                }
+                _ => None,
+            };
             let mut clean: Vec<u8> = Vec::new();
             let r0 = guarded(|| g.to_json_rest(|d: &u16| json!(*d), &mut clean, rest.clone()));
             if let Err((loc, msg)) = r0 {
@@ -817,6 +833,51 @@ fn run_export<K: Kmer + Send + Sync>(c: &ExportCase, rec: &mut Rec) -> Result<()
                     rec.count("hard_write_panicked");
                 }
             }
+        }
+        ExportOp::NestedTags(at) => {
+            rec.choice("nested_export", *at as u64, false);
+            if g.len() == 0 {
+                return Ok(());
+            }
+            let outer = tmp_path("nest");
+            let inner = outer.with_extension("plain");
+            let trigger = at % g.len();
+            let inner_result: std::cell::RefCell<Option<bool>> = std::cell::RefCell::new(None);
+            let r = guarded(|| {
+                g.to_gfa_with_tags(&outer, |n| {
+                    if n.node_id == trigger {
+                        *inner_result.borrow_mut() = Some(g.to_gfa(&inner).is_ok());
+                    }
+                    tag_fn(n.node_id)
+                })
+                .is_ok()
+            });
+            let outer_bytes = std::fs::read(&outer).unwrap_or_default();
+            let inner_bytes = std::fs::read(&inner).unwrap_or_default();
+            let _ = std::fs::remove_file(&outer);
+            let _ = std::fs::remove_file(&inner);
+            let _ = std::fs::remove_file(outer.with_extension("tmp"));
+            rec.count("env_nested_exports");
+            match r {
+                Ok(true) => {}
+                Ok(false) => return Err(Violation::new("healthy-disk-failed", "to_gfa_with_tags interleaved with to_gfa", "outer export returned Err on a healthy temp dir".into())),
+                Err((loc, msg)) => return Err(Violation::new("panic", "to_gfa_with_tags interleaved with to_gfa", format!("panicked at {}: {}", loc, msg))),
+            }
+            if *inner_result.borrow() != Some(true) {
+                return Err(Violation::new("healthy-disk-failed", "to_gfa_with_tags interleaved with to_gfa", format!("inner export result {:?}", inner_result.borrow())));
+            }
+            if inner_bytes != clean_gfa {
+                return Err(Violation::new(
+                    "file-bytes-differ",
+                    "to_gfa_with_tags interleaved with to_gfa",
+                    format!("the inner export's file has {} bytes, write_gfa gives {}", inner_bytes.len(), clean_gfa.len()),
+                ));
+            }
+            let tf: &dyn Fn(usize) -> String = &tag_fn;
+            check_gfa(&outer_bytes, &g, Some(tf), rec).map_err(|mut v| {
+                v.site = "to_gfa_with_tags interleaved with to_gfa".into();
+                v
+            })?;
         }
         ExportOp::ToGfaFile(dev) | ExportOp::ToGfaTagsFile(dev) => {
             let tags = matches!(c.op, ExportOp::ToGfaTagsFile(_));
@@ -869,8 +930,35 @@ fn run_export<K: Kmer + Send + Sync>(c: &ExportCase, rec: &mut Rec) -> Result<()
                 }
                 Device::DevFull => {
                     rec.choice("device", 1, false);
+                    // The exporter is handed a SYMLINK to /dev/full, never the device path itself: an
+                    // exporter that stages to a sibling file and renames it into place would otherwise
+                    // replace the device node (it happened: a seeded change did exactly that as root).
+                    use std::os::unix::fs::FileTypeExt;
+                    let is_dev = std::fs::metadata("/dev/full").map(|m| m.file_type().is_char_device()).unwrap_or(false);
+                    if !is_dev {
+                        rec.count("skipped_dev_full_not_a_device");
+                        rec.nontrivial = false;
+                        return Ok(());
+                    }
                     rec.count("fault_disk_full");
-                    let r = file_export(&g, tags, std::path::Path::new("/dev/full"));
+                    let link = tmp_path("devfull");
+                    let _ = std::fs::remove_file(&link);
+                    if std::os::unix::fs::symlink("/dev/full", &link).is_err() {
+                        rec.count("skipped_dev_full_no_symlink");
+                        return Ok(());
+                    }
+                    let r = file_export(&g, tags, &link);
+                    // An exporter that staged elsewhere and renamed over the link did persist the data:
+                    // that is not "success with missing data".
+                    let replaced = std::fs::symlink_metadata(&link).map(|m| m.file_type().is_file()).unwrap_or(false);
+                    let persisted = replaced && std::fs::read(&link).map(|b| b == clean).unwrap_or(false);
+                    // clean up whatever is at the link path now (the link, or a file renamed over it)
+                    let _ = std::fs::remove_file(&link);
+                    let _ = std::fs::remove_file(link.with_extension("tmp"));
+                    if persisted {
+                        rec.count("device_bypassed_by_staging_and_rename");
+                        return Ok(());
+                    }
                     match r {
                         Ok(true) => {
                             return Err(Violation::new(
@@ -889,7 +977,13 @@ fn run_export<K: Kmer + Send + Sync>(c: &ExportCase, rec: &mut Rec) -> Result<()
                     let p = tmp_path("rl");
                     let exe = std::env::current_exe().unwrap();
                     let spec = serde_json::to_string(&json!({"graph": c.graph, "parallel": c.parallel_finish, "tags": tags, "limit": limit, "path": p})).unwrap();
-                    let out = std::process::Command::new(exe).arg("c20-file-child").arg(spec).output();
+                    // the spec can be large (a 70 kb read): hand it over in a file, not in argv
+                    let spec_path = p.with_extension("spec");
+                    if std::fs::write(&spec_path, &spec).is_err() {
+                        return Err(Violation::new("harness", "c20-file-child", "cannot write the child's spec file".into()));
+                    }
+                    let out = std::process::Command::new(exe).arg("c20-file-child").arg(&spec_path).output();
+                    let _ = std::fs::remove_file(&spec_path);
                     let content = std::fs::read(&p).unwrap_or_default();
                     let _ = std::fs::remove_file(&p);
                     let so = match out {
@@ -922,8 +1016,9 @@ fn run_export<K: Kmer + Send + Sync>(c: &ExportCase, rec: &mut Rec) -> Result<()
 }
 
 /// Child process for the RLIMIT_FSIZE device: limits apply to the whole process.
-pub fn file_child(spec: &str) -> i32 {
-    let v: Value = serde_json::from_str(spec).expect("spec");
+pub fn file_child(spec_path: &str) -> i32 {
+    let spec = std::fs::read_to_string(spec_path).expect("spec file");
+    let v: Value = serde_json::from_str(&spec).expect("spec");
     let graph: GraphSpec = serde_json::from_value(v["graph"].clone()).expect("graph");
     let parallel = v["parallel"].as_bool().unwrap();
     let tags = v["tags"].as_bool().unwrap();
@@ -975,10 +1070,20 @@ impl Harness for ExportCheck {
         if rng.chance(1, 20) {
             graph.reads.clear(); // empty graph
         }
+        if rng.chance(1, if tier == Tier::Thorough { 800 } else { 4000 }) {
+            // one unitig longer than 2^16 bases
+            graph.ktype = rng.pick(&["Kmer16", "Kmer32", "KmerK31"]).to_string();
+            let hl = 65_536 + rng.range(20, 5000);
+            graph.reads = vec![dna::random_seq(rng, hl, &[0, 1, 2, 3])];
+            graph.min_count = 1;
+            graph.combine_parts = 0;
+        }
         if rng.chance(1, 4) {
             graph.stranded = false;
         }
-        let op = match rng.below(40) {
+        let op = match rng.below(43) {
+            40 => ExportOp::JsonEmptyRest,
+            41 | 42 => ExportOp::NestedTags(rng.below(1 << 16)),
             0..=19 => ExportOp::WriteGfa,
             20..=33 => ExportOp::JsonRest(rng.chance(1, 2)),
             34 | 35 => ExportOp::ToGfaFile(Device::Tmp),
